@@ -12,6 +12,7 @@
 mod cancel;
 mod sasl;
 mod txn;
+mod specenc;
 mod codec;
 mod common;
 mod connlife;
@@ -89,6 +90,7 @@ fn main() {
         "cancel" => cancel::main(&opts),
         "sasl" => sasl::main(&opts),
         "txn" => txn::main(&opts),
+        "specenc" => specenc::main(&opts),
         "failprop" => failprop::main(&opts),
         "hostile" => hostile::main(&opts),
         "limits" => limits::main(&opts),
